@@ -1,6 +1,6 @@
 /-
-  Model of /repo/mysql/sql_fingerprint.go (`GetFingerprint`, `isSpace`,
-  `wordIn`) and of the namespace blacklist of /repo/proxy/server/namespace.go
+  Model of /repo/mysql/sql_fingerprint.go (`GetFingerprint`, `blankComments`,
+  `isSpace`, `wordIn`) and of the namespace blacklist of /repo/proxy/server/namespace.go
   (`parseBlackSqls`, `Namespace.IsSQLAllowed`) — property C36.
 
   The statement text is a list of ASCII characters (one element = one byte =
@@ -46,6 +46,8 @@ structure St where
 inductive Out where
   | ret (s : List Char)
   | panic
+  /-- `return orig` ("administrator command: …"): the text `GetFingerprint` was called with -/
+  | orig
   deriving DecidableEq, Repr, Inhabited
 
 /-- Result of one iteration of the `for … range q` loop. -/
@@ -53,11 +55,13 @@ inductive StepR where
   | next (σ : St)
   | ret (s : List Char)
   | panic
+  /-- `return orig` -/
+  | orig
   deriving DecidableEq, Repr, Inhabited
 
 /-- `isSpace`. -/
 def isSpace (r : Char) : Bool :=
-  r = ' ' || r = '\t' || r = '\r' || r = '\n'
+  r = ' ' || r = '\t' || r = '\r' || r = '\n' || r = Char.ofNat 11 || r = Char.ofNat 12
 
 def isDigit (r : Char) : Bool := decide ('0' ≤ r ∧ r ≤ '9')
 
@@ -158,6 +162,12 @@ def wordEnd (q : List Char) (cap : Nat) (qi : Int) (σ : St) (r : Char) : StepR 
     else if σ.prevWord = kwKey ∧ word = kwUpdate then fin { σ with sqlState := .onDupeKeyUpdate }
     else fin σ
 
+/-- `numberNext := qi+1 < len(q) && q[qi+1] >= '0' && q[qi+1] <= '9'`. -/
+def numberNext (q : List Char) (qi : Int) : Bool :=
+  match q[(qi + 1).toNat]? with
+  | some c => isDigit c
+  | none => false
+
 /-- Part 2 of the loop body ("Change state based on rune and current state"),
     followed by part 3. -/
 def part2 (q : List Char) (cap : Nat) (qi : Int) (σ : St) (r : Char) : StepR :=
@@ -183,7 +193,7 @@ def part2 (q : List Char) (cap : Nat) (qi : Int) (σ : St) (r : Char) : StepR :=
       if σ.cpTo > 2 then part3 q cap { σ with s := .inOLC, cpTo := qi - 2, addSpace := true } r
       else part3 q cap { σ with s := .inOLC } r
     else if σ.s = .moreValuesOrUnknown then
-      if σ.valueNo = 1 then
+      if σ.f.length > 0 ∧ (σ.f.getLast?.map isSpace) ≠ some true then
         match push cap σ.f ' ' with
         | none => .panic
         | some f1 => part3 q cap { σ with f := f1 } r
@@ -192,7 +202,7 @@ def part2 (q : List Char) (cap : Nat) (qi : Int) (σ : St) (r : Char) : StepR :=
   else if r = '\'' ∨ r = '"' then
     if σ.pr ≠ '\\' then
       -- `s != inQuote` always holds here
-      if σ.pr = 'x' ∨ σ.pr = 'b' then part3 q cap { σ with s := .inQuote, quoteChar := r, cpTo := -2 } r
+      if σ.pr = 'x' ∨ σ.pr = 'b' then part3 q cap { σ with s := .inQuote, quoteChar := r, cpTo := qi - 1 } r
       else part3 q cap { σ with s := .inQuote, quoteChar := r, cpTo := qi } r
     else part3 q cap σ r
   else if r = '=' ∨ r = '<' ∨ r = '>' ∨ r = '!' then
@@ -205,7 +215,9 @@ def part2 (q : List Char) (cap : Nat) (qi : Int) (σ : St) (r : Char) : StepR :=
     if σ.pr = '-' then part3 q cap { σ with s := .inDash } r
     else part3 q cap { σ with s := .opOrNumber } r
   else if r = '.' then
-    if σ.s = .inNumber ∨ σ.s = .inOp then part3 q cap { σ with s := .inNumber, cpTo := qi } r
+    if σ.s = .inNumber ∨ σ.s = .inOp ∨
+        (numberNext q qi = true ∧ (σ.s = .inSpace ∨ σ.s = .unknown ∨ (σ.s = .inWord ∧ (σ.pr = '(' ∨ σ.pr = ',')))) then
+      part3 q cap { σ with s := .inNumber, cpTo := qi } r
     else part3 q cap σ r
   else if r = '(' then
     if σ.prevWord = kwCall then
@@ -229,8 +241,8 @@ def part2 (q : List Char) (cap : Nat) (qi : Int) (σ : St) (r : Char) : StepR :=
         else part3 q cap σ r
   else if r = ',' ∧ σ.s = .moreValuesOrUnknown then part3 q cap σ r
   else if r = ':' ∧ σ.prevWord = kwAdministrator then
-    -- return q[0 : len(q)-1]
-    .ret q.dropLast
+    -- return orig
+    .orig
   else if r = '#' then part3 q cap { σ with s := .inOLC } r
   else
     if σ.s ≠ .inWord ∧ σ.s ≠ .inOp then
@@ -257,6 +269,9 @@ def step (q : List Char) (cap : Nat) (qi : Int) (σ : St) (r : Char) : StepR :=
       else if r = '\\' then .next { σ with escape := true }
       else .next σ
     else if σ.escape then .next { σ with escape := false }
+    else if q[(qi + 1).toNat]? = some σ.quoteChar then
+      -- qi+1 < len(q) && rune(q[qi+1]) == quoteChar: a doubled quote character
+      .next { σ with escape := true }
     else if σ.sqlState = .inValues then
       .next { σ with escape := false, cpFrom := qi + 1, s := .inValues }
     else
@@ -272,6 +287,8 @@ def step (q : List Char) (cap : Nat) (qi : Int) (σ : St) (r : Char) : StepR :=
         part2 q cap qi { σ with f := f1, cpFrom := qi, s := if isSpace r then .unknown else .inWord } r
   | .inNumber =>
     if isNumberChar r then .next σ
+    else if r = '+' ∧ qi - 1 < 0 then .panic   -- q[qi-1] (never: the number began at an earlier rune)
+    else if r = '+' ∧ (q[(qi - 1).toNat]? = some 'e' ∨ q[(qi - 1).toNat]? = some 'E') then .next σ
     else if isNotNumberChar r then part2 q cap qi { σ with cpTo := qi, s := .inWord } r
     else
       match push cap σ.f '?' with
@@ -287,7 +304,13 @@ def step (q : List Char) (cap : Nat) (qi : Int) (σ : St) (r : Char) : StepR :=
           { σ with parOpen := σ.parOpen + 1, firstPar := if σ.parOpen + 1 = 1 then qi else σ.firstPar }
         else σ
       if σ1.parOpen > 0 then .next σ1
-      else if σ1.parOpenTotal = 0 then .next { σ1 with s := .inWord }
+      else if σ1.parOpenTotal = 0 then
+        -- not a value list: go on with this rune as after any other word
+        if σ1.cpFrom < qi then
+          match push cap σ1.f ' ' with
+          | none => .panic
+          | some f1 => part2 q cap qi { σ1 with f := f1, s := .inSpace, cpFrom := qi, sqlState := .unknown } r
+        else part2 q cap qi { σ1 with s := .inWord, cpFrom := qi, sqlState := .unknown } r
       else
         let vn := σ1.valueNo + 1
         let fin (f' : List Char) (fp : Int) : StepR :=
@@ -327,11 +350,59 @@ def run (q : List Char) (cap : Nat) : Nat → St → List Char → Out
     | .next σ' => run q cap (qi + 1) σ' rs
     | .ret s => .ret s
     | .panic => .panic
+    | .orig => .orig
+
+/-! ### `blankComments` -/
+
+/-- Where `blankComments` is in the text: the variables `comment`, `body`,
+    `quote`, `escape` of the Go function (`mlcOpen`: `comment == inMLC` at the
+    `*` of the opening `/*`, i.e. `i < body`; `mlc prevStar`: `comment == inMLC`
+    and `i ≥ body`, `prevStar` = `i > body && q[i-1] == '*'`). -/
+inductive BMode where
+  | code
+  | quote (c : Char) (esc : Bool)
+  | mlcOpen
+  | mlc (prevStar : Bool)
+  | olc
+  deriving DecidableEq, Repr, Inhabited
+
+/-- `strings.HasPrefix(q[i+1:], "*") && !strings.HasPrefix(q[i+2:], "!")` on the text after `/`. -/
+def startsMlc (rest : List Char) : Bool :=
+  match rest with
+  | '*' :: r2 => !(r2.head? = some '!')
+  | _ => false
+
+/-- `strings.HasPrefix(q[i+1:], "-") && (i+2 == len(q) || isSpace(rune(q[i+2])))` on the text after `-`. -/
+def startsDash (rest : List Char) : Bool :=
+  match rest with
+  | '-' :: [] => true
+  | '-' :: c :: _ => isSpace c
+  | _ => false
+
+/-- The loop of `blankComments`, one byte per iteration. -/
+def blankGo : BMode → List Char → List Char
+  | _, [] => []
+  | .mlcOpen, _ :: rest => ' ' :: blankGo (.mlc false) rest
+  | .mlc ps, c :: rest => ' ' :: blankGo (if c = '/' ∧ ps = true then .code else .mlc (c = '*')) rest
+  | .olc, c :: rest => if c = '\n' then c :: blankGo .code rest else ' ' :: blankGo .olc rest
+  | .quote qc esc, c :: rest =>
+    c :: blankGo (if esc then .quote qc false else if c = '\\' then .quote qc true
+                  else if c = qc then .code else .quote qc false) rest
+  | .code, c :: rest =>
+    if c = '\'' ∨ c = '"' then c :: blankGo (.quote c false) rest
+    else if c = '/' ∧ startsMlc rest = true then ' ' :: blankGo .mlcOpen rest
+    else if c = '#' ∨ (c = '-' ∧ startsDash rest = true) then ' ' :: blankGo .olc rest
+    else c :: blankGo .code rest
+
+/-- `blankComments(q)`. -/
+def blankComments (q : List Char) : List Char := blankGo .code q
 
 /-- `GetFingerprint(q)`. -/
 def getFingerprint (q0 : List Char) : Out :=
-  let q := q0 ++ [' ']
-  run q (2 * q.length + 1) 0 {} q
+  let q := blankComments q0 ++ [' ']
+  match run q (2 * q.length + 1) 0 {} q with
+  | .orig => .ret q0
+  | o => o
 
 /-! ### The namespace blacklist (proxy/server/namespace.go) -/
 
@@ -352,8 +423,8 @@ def parseBlackSqls (md5 : List Char → List Char) : List (List Char) → Option
     if t.length = 0 then parseBlackSqls md5 rest
     else
       match getFingerprint t with
-      | .panic => none
       | .ret fp => (parseBlackSqls md5 rest).map fun m => (md5 fp, fp) :: m
+      | _ => none
 
 /-- `Namespace.IsSQLAllowed` with a fresh request context. -/
 def isSQLAllowed (md5 : List Char → List Char) (sqls : List (List Char × List Char)) (sql : List Char) :
@@ -361,7 +432,7 @@ def isSQLAllowed (md5 : List Char → List Char) (sqls : List (List Char × List
   if sqls.length = 0 then some true
   else
     match getFingerprint sql with
-    | .panic => none
     | .ret fp => some (!(sqls.any fun e => e.1 = md5 fp))
+    | _ => none
 
 end GaeaVerif.Fingerprint
